@@ -3,7 +3,7 @@ import OptunaVerif.Lemmas.SearchSpace
 # C17: the cursor invariant and its preservation along histories
 -/
 namespace OptunaVerif.SearchSpace
-open OptunaVerif OptunaVerif.Generated
+open OptunaVerif
 
 /-- What the storage contract guarantees of the trial list of one study (`Props/C01.lean`:
 `numbers_dense`; parameter dicts are dicts): the trial at position `i` has number `i`. -/
